@@ -53,6 +53,28 @@ def histories(f, data, rng):
         t2.add_subtree(sub, parent=None if par == t.root_node_name else par)
         t2.update()
         yield "prune-regraft-detour", t2
+        # split detour: cut a subtree of several clones out, cut its own child subtrees off it, then graft the pieces
+        # back one by one (graph positions get vacated and reused; the abstract tree is the same)
+        kids = f.children(i)
+        if kids:
+            t = t0.copy()
+            sub = t.get_subtree(names[i])
+            par = t.get_parent(names[i])
+            t.remove_subtree(sub)
+            pieces = []
+            for ch in kids:
+                piece = sub.get_subtree(names[ch])
+                sub.remove_subtree(piece)
+                pieces.append(piece)
+            t2 = t.copy()
+            t2.add_subtree(sub, parent=None if par == t.root_node_name else par)
+            top = [n for n in t2.nodes if n not in t.nodes]
+            for piece in pieces:
+                t3 = t2.copy()
+                t3.add_subtree(piece, parent=top[0])
+                t2 = t3
+            t2.update()
+            yield "split-and-regraft-detour", t2
         # the same subtree object grafted into two candidates (as the prune-regraft move does); the other candidate is
         # then edited in place -- the first must still be the same tree
         t = t0.copy()
